@@ -420,13 +420,45 @@ func (e *Exec) specCall(st *State, fn *ssa.Function, args []Term) (Term, error) 
 		args[i] = e.name("a_"+fn.Params[i].Name(), args[i])
 	}
 	rs := e.p.sortOf(fn.Signature.Results().At(0).Type())
-	if e.p.specRec[key] {
+	if c := e.p.Contracts[key]; e.p.specRec[key] || (c != nil && c.Opaque) {
 		name := "spec_" + sanitize(key)
 		var ss []Sort
 		for _, a := range args {
 			ss = append(ss, a.Sort)
 		}
+		firstUse := !e.declared[name]
 		e.declareFun(name, ss, rs)
+		if c := e.p.Contracts[key]; firstUse && c != nil && c.Opaque && (!e.p.specRec[key] || c.Axiom) {
+			// definitional axiom: forall x. f(x) = body(x), triggered by f(x)
+			var bound []Term
+			var binders []string
+			for i, s := range ss {
+				e.nfresh++
+				b := Term{fmt.Sprintf("x!%d_%d", e.nfresh, i), s}
+				bound = append(bound, b)
+				binders = append(binders, fmt.Sprintf("(%s %s)", b.S, s))
+			}
+			e.binder++
+			body, err := e.runPure(st, fn, bound)
+			e.binder--
+			if err != nil {
+				return Term{}, err
+			}
+			lhs := App(rs, name, bound...)
+			ax := T(SBool, "(forall (%s) (! (= %s %s) :pattern (%s)))", strings.Join(binders, " "), lhs.S, body.S, lhs.S)
+			if e.axioms == nil {
+				e.axioms = map[string]string{}
+			}
+			e.axioms[name] = "(assert " + ax.S + ")"
+			if e.axiomRec == nil {
+				e.axiomRec = map[string]bool{}
+			}
+			e.axiomRec[name] = e.p.specRec[key]
+			if e.axiomIdx == nil {
+				e.axiomIdx = map[string]int{}
+			}
+			e.axiomIdx[name] = len(e.decls)
+		}
 		app := App(rs, name, args...)
 		if e.binder > 0 {
 			return app, nil
